@@ -116,6 +116,9 @@ def cases(tier, seed):
                 "params": {"grammars": [g.short() for g in ch], "tables": kind, "start": "LAYOUT"},
                 "wall_cap_s": 1500,
             })
+    seqs = [g.short() for g in lay[: (40 if tier == "quick" else 200)]]
+    for n, ch in enumerate(_chunks(seqs, 20)):
+        out.append({"name": "same-grammar-object|batch%02d" % n, "params": {"grammars": ch, "tables": "SEQ", "start": "SEQ"}, "wall_cap_s": 1500})
     out.append({
         "name": "twin:LALR|expr",
         "params": {"grammars": [corpus.shape("expr").short()], "tables": "LALR", "start": "main", "twin": True},
@@ -128,9 +131,10 @@ class _Timeout(Exception):
     pass
 
 
-def build_table(spec, kind, start, ref):
+def build_table(spec, kind, start, ref, grammar=None):
     """Real create_table under a construction budget.  Returns (table, constructions)."""
-    grammar = Grammar.from_string(spec.text())
+    if grammar is None:
+        grammar = Grammar.from_string(spec.text())
     budget = 8 * (len(ref.states) + len(ref.trans)) + 64
     count = [0]
     orig = T.LRState.__init__
@@ -184,11 +188,36 @@ def bookkeeping(table):
     return None
 
 
-def check_one(gshort, kind, start, twin=False):
+SEQUENCE = [("SLR", "LAYOUT"), ("SLR", "main"), ("LALR", "LAYOUT"), ("LALR", "main"), ("SLR", "main"), ("SLR", "LAYOUT")]
+
+
+def check_sequence(gshort):
+    """Several tables built one after the other on ONE Grammar object (as Parser() does for a grammar with a LAYOUT
+    rule): every one of them must be faithful - nothing cached on the grammar may depend on an earlier build."""
+    spec = parse_short(gshort)
+    grammar = Grammar.from_string(spec.text())
+    total = {"status": "holds", "solver_s": 0.0, "facts": 0, "verdicts": {}, "states": 0, "ref_states": 0, "pairs": 0}
+    for kind, start in SEQUENCE:
+        r = check_one(gshort, kind, start, grammar=grammar)
+        total["solver_s"] += r.get("solver_s", 0.0)
+        total["facts"] += r.get("facts", 0)
+        total["pairs"] += r.get("pairs", 0)
+        total["states"] += r.get("states", 0)
+        total["ref_states"] += r.get("ref_states", 0)
+        total["verdicts"]["%s/%s" % (kind, start)] = r.get("verdicts")
+        if r["status"] != "holds":
+            r["detail"] = "table %s/%s built after %s on the same Grammar object: %s" % (kind, start, SEQUENCE[: SEQUENCE.index((kind, start))], r.get("detail"))
+            return r
+    return total
+
+
+def check_one(gshort, kind, start, twin=False, grammar=None):
+    if kind == "SEQ":
+        return check_sequence(gshort)
     spec = parse_short(gshort)
     ref = reflr.RefLR(spec, start=("LAYOUT" if start == "LAYOUT" else None))
     try:
-        table, nconstr = build_table(spec, kind, start, ref)
+        table, nconstr = build_table(spec, kind, start, ref, grammar=grammar)
     except horn.Budget as e:
         return {"status": "violation", "detail": "table construction does not terminate within the reference-derived budget: %s" % e}
     rel = horn.export_table(table, spec, ref)
